@@ -10,7 +10,7 @@ if [ "$1" = "-e" ]; then
   sed -i -E "$2" "$D/$3"; shift 3
   (cd "$D" && diff -ru /repo/lib lib | head -40) || true
 else
-  (cd "$D" && patch -p1 < "$1"); shift
+  (cd "$D" && patch -p1 -F3 -s < "$1") || { echo "PATCH-DOES-NOT-APPLY $1"; exit 3; }; shift
 fi
 cd /verif
 VERIF_REPO="$D" VERIF_EVIDENCE_DIR="$D/evidence" VERIF_BUILD_DIR="$D/build" ./check "$@" || true
